@@ -383,8 +383,8 @@ Fixpoint ip4_mask_f (n : nat) (i prefix mask : N) : N :=
   match n with
   | O => mask
   | S n' =>
-      let m := (2 * mask) mod 4294967296 in
-      ip4_mask_f n' (i + 1) prefix (if i <? prefix then m + 1 else m)
+      (* after the shift the low bit is 0: or-ing 1 adds 1 *)
+      ip4_mask_f n' (i + 1) prefix ((2 * mask) mod 4294967296 + (if i <? prefix then 1 else 0))
   end.
 Definition ip4_mask (prefix : N) : N := ip4_mask_f 32 0 prefix 0.
 
